@@ -74,6 +74,7 @@ def make_data(rng, n, p, noise, positive):
 
 def run_case(case, ctx):
     import pandas
+    from vrt import layouts as layouts_mod
     from mlinsights.mlmodel import QuantileLinearRegression
     sub = case["sub"]
     rng = numpy.random.RandomState(sub % (2 ** 31))
@@ -111,7 +112,8 @@ def run_case(case, ctx):
     elif variant == "float32-features":
         X = X.astype(numpy.float32)
     elif variant == "fortran-order":
-        X = numpy.asfortranarray(X)
+        X = layouts_mod.relayout(X, ["fortran", "strided-columns", "strided-rows", "negative-stride", "read-only"][
+            (sub // 24) % 5])
     ctx.cls("variant=" + variant)
     w = rng.randint(1, 5, size=n).astype(float) if weighted else None
     cfg = {"q": q, "n": n, "p": p, "noise": noise, "positive": positive, "variant": variant,
@@ -140,10 +142,16 @@ def run_case(case, ctx):
     if not copy_X:
         ctx.cls("copy_X=False")
 
+    from vrt import layouts
+    via = (sub // 13) % 4 == 0
+    cfg["configured_with"] = "set_params" if via else "constructor"
+
     def new(max_iter=300, quantile=None):
-        return QuantileLinearRegression(quantile=q if quantile is None else quantile, max_iter=max_iter,
-                                        positive=positive, fit_intercept=fit_intercept, delta=1e-4 * S,
-                                        copy_X=copy_X)
+        return layouts.build(QuantileLinearRegression, dict(
+            quantile=q if quantile is None else quantile, max_iter=max_iter, positive=positive,
+            fit_intercept=fit_intercept, delta=1e-4 * S, copy_X=copy_X), via,
+            dict(quantile=0.5 if q != 0.5 else 0.2, max_iter=3, positive=not positive,
+                 fit_intercept=not fit_intercept, delta=0.5))
 
     numpy.random.seed(sub % (2 ** 31))
     m = new()
